@@ -35,8 +35,6 @@ ASSUMPTIONS = [
     "spew returning a None element that was put in with push(None) is FIFO behaviour, not 'None while non-empty'",
     "pull on an empty deck: IndexError or a None result are both accepted (statement silent); deck must stay empty",
     "public identifier = str.isidentifier() and not starting with '_'",
-    "on a FAILING path the harness pins the remaining symbolic inputs to one model value before the engine realises "
-    "the counterexample (one failing path per branch pattern instead of |domain|^k); confirmed paths are untouched",
     "the vacuity label 'existing-field' of the delitem obligation is waived by a concrete probe while every deletion of "
     "an existing field is a replayed violation, and required again once deletion works",
 ]
@@ -52,34 +50,16 @@ def valid_name(k):
     return k.isidentifier() and not k.startswith("_")
 
 
-# ----------------------------------------------------------------------------- helpers (see C39 for pin's rationale)
-def pin(sym):
-    """failing path only: fix every still-symbolic input to one feasible value (a constraint, not a branch) so the
-    engine's realisation of the counterexample gives one failing path per branch pattern, not |domain|^k"""
-    if not getattr(sym, "symbolic", False):
-        return
-    import z3
-    from crosshair.statespace import context_statespace
-    from crosshair.tracers import NoTracing
-    with NoTracing():
-        space = context_statespace()
-        if space.solver.check() != z3.sat:
-            return
-        model = space.solver.model()
-        for v in list(sym.vals.values()):
-            var = getattr(v, "var", None)
-            if var is not None:
-                space.add(var == model.evaluate(var, model_completion=True))
-
-
+# ----------------------------------------------------------------------------- helpers
 def fail(sym, key, detail=""):
-    pin(sym)
-    sym.fail(key, detail() if callable(detail) else detail)
+    """detail may be a callable: the engine evaluates it under concrete replay only (formatting symbolic values
+    would realise them), and reads the counterexample from a solver model without enumerating value domains"""
+    sym.fail(key, detail)
 
 
 def chk(sym, c, key, detail=""):
     if not c:
-        fail(sym, key, detail)
+        sym.fail(key, detail)
 
 
 def run(fn):
